@@ -28,13 +28,13 @@ func run(c perco.GCase, r *pbt.Rec) error {
 
 func TestCheck(t *testing.T) {
 	s := &pbt.Suite{ID: "C19", Level: "exploration",
-		Rule: "Histories over 1-2 hot keys: locks are set (prewrite) and removed (commit, rollback, resolve, TTL expiry) repeatedly by up to 5 transactions, with flush / L0->ingest move / ingest merge / ingest drain / picker steps anywhere (about one step in four), CheckTxnStatus with CurrentTs in {ts+ttl-1, ts+ttl, ts+ttl+1, now, 0}, ttl in {0,1,2,3,4,6,40}, CallerStartTs around the pending commit version, MinCommitTs from the prewrite in {0,start+1,start+2,start+4}. Oracles after every step (including maintenance): Reader.GetLock(k) (owner, primary, ttl, kind, min commit ts) equals the model lock for every key and the lock CF seen through the internal iterator agrees; CheckTxnStatus answers TTLExpireRollback iff the primary lock belongs to the transaction, ttl!=0 and current>=ts+ttl; Commit/ResolveLock-commit below the lock's min commit ts is refused with CommitTsExpired, at/above it succeeds; prewrite on a key locked by another transaction is refused. Non-trivial = a lock was set and flushed, removed later and the removal flushed into a different SST than the lock; distinct by case content.",
+		Rule: "Histories over 1-2 hot keys: locks are set (prewrite) and removed (commit, rollback, resolve, TTL expiry) repeatedly by up to 5 transactions, with flush / L0->ingest move / ingest merge / ingest drain / picker steps anywhere (about one step in four), CheckTxnStatus with CurrentTs in {ts+ttl-1, ts+ttl, ts+ttl+1, now, 0}, ttl in {0,1,2,3,4,6,40}, CallerStartTs around the pending commit version, MinCommitTs from the prewrite in {0,start+1,start+2,start+3,start+4}. Oracles after every step (including maintenance): Reader.GetLock(k) (owner, primary, ttl, kind, min commit ts) equals the model lock for every key and the lock CF seen through the internal iterator agrees; CheckTxnStatus answers TTLExpireRollback iff the primary lock belongs to the transaction, ttl!=0 and current>=ts+ttl; Commit/ResolveLock-commit below the lock's min commit ts is refused with CommitTsExpired, at/above it succeeds; prewrite on a key locked by another transaction is refused. Non-trivial = a lock was set and flushed, removed later and the removal flushed into a different SST than the lock; distinct by case content.",
 		Assumptions: []string{
 			"requests are applied one at a time (sequential raft apply)",
 			"the min-commit-ts push of CheckTxnStatus (caller_start_ts+1) is part of the lock state the property speaks about ('the lock's minimum commit timestamp')",
 			"rotation is always followed by waiting for the flush, so a step's effect does not depend on flush timing",
 		},
 	}
-	pbt.Add(s, &pbt.Spec[perco.GCase]{Name: "locks", Gen: gen, Run: run, Quick: 1200, Thorough: 48000, Shards: 16})
+	pbt.Add(s, &pbt.Spec[perco.GCase]{Name: "locks", Gen: gen, Run: run, Quick: 1200, Thorough: 36000, Shards: 16})
 	s.Main(t)
 }
